@@ -14,12 +14,15 @@ import (
 
 // ---------------------------------------------------------------- random semantic configurations
 
-var customMethods = []string{"PUT", "DELETE", "PATCH", "patch", "OPTIONS", "PURGE", "Put", "QUERY", "query", "M-SEARCH", "A_B", "a^b", "x"}
+var customMethods = []string{"PUT", "DELETE", "PATCH", "patch", "OPTIONS", "PURGE", "Put", "QUERY", "query", "M-SEARCH", "A_B", "a^b", "x",
+	"LONGMETHOD" + strings.Repeat("ABCDEFGHIJKLMNOP", 16)}
 var reqHdrUniverse = []string{"authorization", "x-a", "x-b", "content-type", "x-requested-with", "x-a-b", "a", "zz-last",
 	// every non-alphanumeric token character, placed after letters (so that case variants have an upper-case letter in front)
 	"x_trace_id", "x^caret", "x`tick", "x|bar~tilde", "x!#$%&'*+.", "0-9",
 	// longer than the small buffers a case-mapping or lookup helper might use (32 / 64 bytes)
-	"x-tenant-identifier-for-the-upstream-ab", "x-" + "abcdefghijklmnopqrstuvwxyz0123456789-abcdefghijklmnopqrstuvwxyz0123456789" + "-id"}
+	"x-tenant-identifier-for-the-upstream-ab", "x-" + "abcdefghijklmnopqrstuvwxyz0123456789-abcdefghijklmnopqrstuvwxyz0123456789" + "-id",
+	// ... and beyond what fits a uint8 length
+	"x-very-long-" + strings.Repeat("0123456789abcdef", 16) + "-end"}
 
 func normalizeMethod(m string) string {
 	u := strings.ToUpper(m)
